@@ -9,7 +9,7 @@ TLit(n) == TS("lit", n, 0)
 StepOf(u, d) == IF u \in StepUpds THEN d ELSE Lit(1)
 \* s = <<cmp, left, upd>>
 TShape(lay, chk, ts, s, ci, cb, cs) ==
-  [lay |-> lay, chk |-> chk, ts |-> ts, pos |-> "tile", ity |-> "int",
+  [lay |-> lay, chk |-> chk, ts |-> ts, pos |-> "tile", ity |-> "int", nm |-> "i",
    cmp |-> s[1], left |-> s[2], upd |-> s[3], ci |-> ci, cb |-> cb, cs |-> StepOf(s[3], cs)]
 
 IsAlignedShape(c, l, u) == ((l /\ c \in {"lt", "le"}) \/ (~l /\ c \in {"gt", "ge"})) = Up(u)
@@ -18,6 +18,8 @@ QuickShapes == { <<"lt", TRUE, "preinc">>, <<"le", TRUE, "addeq">>, <<"gt", TRUE
                  <<"ge", TRUE, "subeq">>, <<"gt", FALSE, "postinc">>, <<"le", FALSE, "subeq">>,
                  <<"lt", TRUE, "addeq">>, <<"gt", TRUE, "subeq">> }
 V == Op("var")
+\* the same shape with another iterator name (the launch-bound inference reads the printed count)
+Named(k, nm) == [k EXCEPT !.nm = nm]
 
 DesignArgs   == -3..8
 QuickArgs    == {-2, 0, 1, 5}
@@ -38,6 +40,7 @@ QuickTileKernels ==
           s \in { <<"lt", TRUE, "postinc">>, <<"gt", TRUE, "subeq">> }}
   \cup {TShape("plain", TRUE, te, s, V, V, Lit(2)) : te \in TileExprs,
           s \in { <<"le", TRUE, "addeq">>, <<"gt", TRUE, "predec">> }}
+  \cup {Named(TShape(lay, TRUE, TLit(3), <<"lt", TRUE, "preinc">>, V, V, Lit(1)), "i2") : lay \in {"oi", "plain"}}
   \cup {TShape("oi", TRUE, TLit(2), s, Op(c), V, Lit(2)) : c \in {"add", "tern"}, s \in { <<"lt", TRUE, "addeq">>, <<"ge", TRUE, "postdec">> }}
   \cup {TShape("oi", TRUE, TLit(2), s, V, Op(c), Lit(2)) : c \in {"add", "shl", "band"}, s \in { <<"lt", TRUE, "addeq">>, <<"ge", TRUE, "postdec">> }}
 
@@ -45,6 +48,7 @@ ThoroughTileKernels ==
   {TShape(lay, chk, TLit(n), s, V, V, sd) : lay \in {"oi", "plain"}, chk \in BOOLEAN, n \in {1, 2, 3, 4}, s \in AlignedShapes, sd \in {Lit(2), Lit(3), V}}
   \cup {TShape(lay, chk, TLit(n), s, V, V, Lit(2)) : lay \in {"o", "ii", "oo", "2d"}, chk \in BOOLEAN, n \in {2, 3}, s \in AlignedShapes}
   \cup {TShape(lay, TRUE, te, s, V, V, Lit(2)) : lay \in {"oi", "plain"}, te \in TileExprs, s \in QuickShapes}
+  \cup {Named(TShape(lay, chk, TLit(3), s, V, V, Lit(2)), "i2") : lay \in {"oi", "plain", "ii"}, chk \in BOOLEAN, s \in QuickShapes}
   \cup {TShape("oi", TRUE, TLit(2), s, Op(c), V, Lit(2)) : c \in Classes \ {"lit", "var"}, s \in QuickShapes}
   \cup {TShape("oi", TRUE, TLit(2), s, V, Op(c), Lit(2)) : c \in Classes \ {"lit", "var"}, s \in QuickShapes}
 =============================================================================
